@@ -1,6 +1,6 @@
 """C15 — closed-form trainers: theorems (Props/C15.lean) + correspondence K-C15 between
 Model/Trainers.lean (driver drv_c15, exact `Rat` arithmetic) and the real Shark trainers
-(harness/c15.cpp, harness/c15b.cpp) on integer datasets with explicit batch partitions.
+(harness/c15.cpp, harness/c15b.cpp, harness/c15c.cpp) on integer datasets with explicit batch partitions.
 
 Protocol (two passes, see lean/Driver/C15.lean): the harness prints what the real
 trainer returned (doubles exactly, FE_INEXACT flag per call, `!oracle` tags of the
@@ -217,7 +217,8 @@ def run_lines(ctx, exes, drv, lines, timeout=900):
     env.setdefault("UBSAN_OPTIONS", "print_stacktrace=1"); env.update(ENV)
     groups = {}
     for i, l in enumerate(lines):
-        groups.setdefault("a" if l.split()[0] in HARNESS_A_OPS else "b", []).append(i)
+        op = l.split()[0] if l.split() else ""
+        groups.setdefault("a" if op in HARNESS_A_OPS else "c" if op == "fisher" else "b", []).append(i)
     for g, idx in groups.items():
         exe = exes[g]
         text = "\n".join(lines[i] for i in idx) + "\n"
@@ -320,6 +321,9 @@ def shrink(ctx, exes, drv, line, same):
 
 def classify(r):
     op = r.op.split()[0]
+    if op == "fisher" and r.crash and r.op.split()[2] == "0":
+        return ("F-C15-8:fisherlda-default-dimension",
+                f"FisherLDA with the default subspace dimension (= number of classes) > input dimension reads past the eigenvector matrix: `{r.op}`", True)
     if r.crash:
         m = re.search(r"ERROR: AddressSanitizer: (\S+)|runtime error: ([^\n]*)", r.stderr)
         tag = (m.group(1) or m.group(2)) if m else "crash"
@@ -342,9 +346,6 @@ def classify(r):
     if op == "fisher" and "fisher-direction-not-stationary" in r.oracle:
         return ("F-C15-7:fisherlda-nonsymmetric-eigenproblem",
                 f"FisherLDA feeds the non-symmetric Sw^-1*Sb to the symmetric eigen-solver; returned directions do not satisfy Sb*w = lambda*Sw*w: `{r.op}`", True)
-    if op == "fisher" and r.crash:
-        return ("F-C15-8:fisherlda-default-dimension",
-                f"FisherLDA with the default subspace dimension (= number of classes) > input dimension reads past the eigenvector matrix: `{r.op}`", True)
     if op == "lda" and "lda-n-equals-classes" in r.model:
         return ("F-C15-4:lda-n-equals-classes",
                 f"LDA divides the scatter matrix by n - classes = 0: `{r.op}` -> {r.impl[:80]}", True)
@@ -405,11 +406,13 @@ LAKE_TARGETS = ["SharkVerif.Props.C15", "drv_c15"]
 
 
 def build(ctx):
-    # two executables built one after the other: at most 3 compiler jobs at a time
+    # three executables built one after the other: at most 3 compiler jobs of Shark translation units at a time
+    # (src/Core/Random.cpp is a 2-second TU)
     a = ctx.harness("c15", ["c15.cpp"], repo_sources=["src/Algorithms/LinearRegression.cpp",
                                                       "src/Algorithms/NormalizeComponentsWhitening.cpp"])
-    b = ctx.harness("c15b", ["c15b.cpp"], repo_sources=["src/Algorithms/PCA.cpp", "src/Algorithms/LDA.cpp", "src/Algorithms/FisherLDA.cpp", "src/Core/Random.cpp"])
-    return {"a": a, "b": b}
+    b = ctx.harness("c15b", ["c15b.cpp"], repo_sources=["src/Algorithms/PCA.cpp", "src/Algorithms/LDA.cpp", "src/Core/Random.cpp"])
+    c = ctx.harness("c15c", ["c15c.cpp"], repo_sources=["src/Algorithms/FisherLDA.cpp"])
+    return {"a": a, "b": b, "c": c}
 
 
 def nontrivial(line):
@@ -422,7 +425,7 @@ def nontrivial(line):
 
 
 def run(ctx):
-    ctx.trusted += ["correspondence harnesses harness/c15.cpp, harness/c15b.cpp + generator checks/c15.py",
+    ctx.trusted += ["correspondence harnesses harness/c15.cpp, harness/c15b.cpp, harness/c15c.cpp + generator checks/c15.py",
                     "hand-written model Model/Trainers.lean (the trainers are modelled, not translated)",
                     "FE_INEXACT flag semantics (x86-64 SSE2, -ffp-contract=off, OPENBLAS_NUM_THREADS=1) for the exact comparisons",
                     "ASan/UBSan runtime for the real code's memory safety (not a theorem)"]
